@@ -254,9 +254,11 @@ def gen_history(rng, seed, nops):
         if rng.random() < 0.5:
             stale.append(["%s.0.pickle" % base, kind, fresh()])
     ops = []
+    first_load = rng.random() < 0.2      # loading from a directory NIFTy has not written yet
     for j in range(nops):
-        if j % 2 == 0 or rng.random() < 0.2:
-            n = int(rng.integers(1, 7)) if rng.random() < 0.93 else 0
+        if (j % 2 == 0 or rng.random() < 0.2) and not (j == 0 and first_load):
+            u = rng.random()
+            n = int(rng.integers(1, 7)) if u < 0.85 else (0 if u < 0.92 else int(rng.integers(10, 13)))
             nt = int(rng.integers(1, 5))
             if kind == "plain":
                 items = [fresh() for _ in range(n)]
@@ -465,7 +467,7 @@ class C26(C.Check):
         rng = ctx.rng(26)
         work = os.path.join(ctx.run_dir(), "fs")
         hs = [c["history"] for c in ctx.corpus() if "history" in c]
-        nh = 14 if ctx.quick else 150
+        nh = 30 if ctx.quick else 200
         for i in range(nh):
             hs.append(gen_history(rng, ctx.seed * 1000 + i, int(rng.integers(3, 9))))
         checks, where = [], []
